@@ -3,6 +3,11 @@
 stage(ctx, libdir) -> dict(proofs, evaluations, distinct_nontrivial, samples, dist, rule, trusted, assumptions)
 registers problems with ctx.problem(...).
 
+Ops of the line protocol (harness/rbt_h.c = lean/HawkModel/Drv/Rbt.lean): new S (S=0..3 predefined styles, 4 = user style
+with key copier/freeer, value freeer, keeper, comparator) | insert/upsert/update/ensert k v | cbsert k v m (hawk_rbt_cbsert, callback
+kind m: 0 re-allocate, 1 keep, 2 fail, 3 accumulate, 4 change in place) | delete k | search k | clear | walk [n] | rwalk [n] |
+iter d n | zip n (two live iterators of opposite direction in lockstep, re-initialisation, restart by getfirstpair).
+
 Three independent judges look at every line the real code prints:
   1. the C harness' own invariant flags (inv=BAD:...: black height, red-red, order, parent links,
      size, sentinel, height bound 2^((h+1)/2) <= n+1)           -> property violated by the real code
@@ -30,7 +35,7 @@ def exhaustive_effective(nkeys, length):
     blocks = []
     for n, seq in enumerate(itertools.product(range(nkeys), repeat=length)):
         present = set()
-        b = ["new %d" % (n % 4)]
+        b = ["new %d" % (n % 5)]
         for i, k in enumerate(seq):
             if k in present:
                 present.discard(k); b.append("delete %d" % k)
@@ -49,7 +54,7 @@ def exhaustive_allops(nkeys, length):
     alpha.append(("clear", None))
     blocks = []
     for n, seq in enumerate(itertools.product(alpha, repeat=length)):
-        b = ["new %d" % (n % 4)]
+        b = ["new %d" % (n % 5)]
         for i, (op, k) in enumerate(seq):
             if op == "clear":
                 b.append("clear")
@@ -62,11 +67,56 @@ def exhaustive_allops(nkeys, length):
     return blocks
 
 
+def exhaustive_cbsert(nkeys, length):
+    """every sequence over {insert k, delete k, cbsert k with each of the five callback kinds}"""
+    alpha = []
+    for k in range(nkeys):
+        alpha += [("insert", k, 0), ("delete", k, 0)] + [("cbsert", k, m) for m in range(5)]
+    blocks = []
+    for n, seq in enumerate(itertools.product(alpha, repeat=length)):
+        b = ["new %d" % (n % 5)]
+        for i, (op, k, m) in enumerate(seq):
+            if op == "delete":
+                b.append("delete %d" % k)
+            elif op == "insert":
+                b.append("insert %d %d" % (k, val(i + n, k)))
+            else:
+                b.append("cbsert %d %d %d" % (k, val(i + n + 1, k), m))
+        b.append("zip %d" % (n % 4))
+        blocks.append(b)
+    return blocks
+
+
+def vlen_matrix():
+    """every style x position of the pair in the tree (root with two children / inner / leaf) x stored length x new length
+    (shorter, equal, longer; also the very same value) x way of changing the value (upsert, update, cbsert re-allocating,
+    cbsert in place): the stored length and bytes are read back by the dump, the next search and both walks"""
+    blocks = []
+    for style in range(5):
+        for target in (3, 1, 0):
+            for ol in (1, 2, 3):
+                for nl in (0, 1, 2, 3):          # 0 = the same value again (same pointer and length)
+                    for how in ("upsert", "update", "cbsert0", "cbsert4", "cbsert3"):
+                        old = 90 + (ol - 1)
+                        new = old if nl == 0 else 150 + (nl - 1)
+                        b = ["new %d" % style]
+                        for k in (3, 1, 5, 0, 2, 4, 6):
+                            b.append("insert %d %d" % (k, old if k == target else 60 + k))
+                        if how.startswith("cbsert"):
+                            m = int(how[-1])
+                            b.append("cbsert %d %d %d" % (target, (new - old) % 256 if m == 3 else new, m))
+                        else:
+                            b.append("%s %d %d" % (how, target, new))
+                        b += ["search %d" % target, "walk", "rwalk", "delete %d" % target, "walk"]
+                        blocks.append(b)
+    return blocks
+
+
 def gen_churn(rng, maxops):
     """fill-up phase, mixed phase, delete-heavy tail; 8..64 keys; all entry points; lookups and walks sprinkled in"""
     nk = rng.choice([8, 8, 12, 16, 24, 32, 48, 64])
     n = rng.randrange(20, maxops)
-    b = ["new %d" % rng.randrange(4)]
+    b = ["new %d" % rng.randrange(5)]
     ascending = rng.random() < 0.15
     for i in range(n):
         frac = i / float(n)
@@ -84,13 +134,17 @@ def gen_churn(rng, maxops):
             b.append("update %d %d" % (k, v))
         elif r < pdel + 0.11:
             b.append("ensert %d %d" % (k, v))
-        elif r < pdel + 0.13:
-            b.append("search %d" % k)
-        elif r < pdel + 0.135:
-            b.append(rng.choice(["walk", "rwalk", "walk %d" % rng.randrange(1, 9), "rwalk %d" % rng.randrange(1, 9)]))
+        elif r < pdel + 0.125:
+            b.append("cbsert %d %d %d" % (k, v, rng.randrange(5)))
         elif r < pdel + 0.14:
+            b.append("search %d" % k)
+        elif r < pdel + 0.145:
+            b.append(rng.choice(["walk", "rwalk", "walk %d" % rng.randrange(1, 9), "rwalk %d" % rng.randrange(1, 9)]))
+        elif r < pdel + 0.148:
             b.append("iter %d %d" % (rng.randrange(2), rng.randrange(0, nk + 2)))
-        elif r < pdel + 0.141:
+        elif r < pdel + 0.15:
+            b.append("zip %d" % rng.randrange(0, nk + 2))
+        elif r < pdel + 0.151:
             b.append("clear")
         else:
             b.append("insert %d %d" % (k, v))
@@ -125,54 +179,82 @@ def split_blocks(lines):
 # judge 2: the ideal dictionary in Python
 # ----------------------------------------------------------------------------
 def pyref_expect(block):
-    """expected `r=`/`w=` prefix for every line of a block according to a plain dict; None = don't care"""
+    """for every line of a block according to a plain dict: (expected `r=`/`w=` prefix | None = don't care,
+    expected ` ev=` suffix of the user style 4 | None)"""
     d = None
+    style = 0
     exp = []
     for l in block:
         w = l.split()
         op = w[0]
+        ev = None
         if op == "new":
-            d = {}; exp.append("ok"); continue
+            d = {}; style = int(w[1]); exp.append(("ok", None)); continue
         if d is None:
-            exp.append("bad-op"); continue
+            exp.append(("bad-op", None)); continue
+        kf = vf = kp = 0          # key frees, value frees, keeper calls a user style must see
         if op in ("insert", "upsert", "update", "ensert"):
             k, v = int(w[1]), int(w[2])
             if op == "insert":
-                if k in d: exp.append("r=EEXIST ")
-                else: d[k] = v; exp.append("r=%d:%d " % (k, v))
-            elif op == "upsert":
-                d[k] = v; exp.append("r=%d:%d " % (k, v))
-            elif op == "update":
-                if k in d: d[k] = v; exp.append("r=%d:%d " % (k, v))
-                else: exp.append("r=ENOENT ")
+                if k in d: e = "r=EEXIST "
+                else: d[k] = v; e = "r=%d:%d " % (k, v)
+            elif op in ("upsert", "update"):
+                if k in d:
+                    if d[k] == v: kp = 1      # same pointer and length: the keeper is told, nothing is freed
+                    else: vf = 1              # the old value is released
+                    d[k] = v; e = "r=%d:%d " % (k, v)
+                elif op == "upsert":
+                    d[k] = v; e = "r=%d:%d " % (k, v)
+                else:
+                    e = "r=ENOENT "
             else:
                 if k not in d: d[k] = v
-                exp.append("r=%d:%d " % (k, d[k]))
+                e = "r=%d:%d " % (k, d[k])
+        elif op == "cbsert":
+            k, v, m = int(w[1]), int(w[2]), int(w[3])
+            if m == 2:
+                e = "r=CBFAIL "
+            elif k not in d:
+                d[k] = v; e = "r=%d:%d " % (k, v)
+            else:
+                if m == 1: pass
+                elif m == 3: d[k] = (d[k] + v) % 256; kf = vf = 1
+                elif m == 0: d[k] = v; kf = vf = 1
+                else: d[k] = v            # style 4 keeps the value pointer: changed in place, nothing released
+                e = "r=%d:%d " % (k, d[k])
         elif op == "delete":
             k = int(w[1])
-            if k in d: del d[k]; exp.append("r=0 ")
-            else: exp.append("r=ENOENT ")
+            if k in d: del d[k]; e = "r=0 "; kf = vf = 1
+            else: e = "r=ENOENT "
         elif op == "search":
             k = int(w[1])
-            exp.append("r=%d:%d" % (k, d[k]) if k in d else "r=ENOENT")
+            exp.append(("r=%d:%d" % (k, d[k]) if k in d else "r=ENOENT", None)); continue
         elif op == "clear":
-            d.clear(); exp.append("r=ok n=0 ")
+            kf = vf = len(d)
+            d.clear(); e = "r=ok "
         elif op in ("walk", "rwalk"):
             ks = sorted(d, reverse=(op == "rwalk"))
             if len(w) > 1 and int(w[1]) > 0:
                 ks = ks[:int(w[1])]
-            exp.append("w=" + ",".join("%d:%d" % (k, d[k]) for k in ks))
+            exp.append(("w=" + ",".join("%d:%d" % (k, d[k]) for k in ks), None)); continue
+        elif op == "zip":
+            n = int(w[1])
+            up = sorted(d); dn = up[::-1]
+            f = lambda ks: ",".join("%d:%d" % (k, d[k]) for k in ks)
+            exp.append(("w=%s|%s|%s|%s" % (f(up[:n + 1]), f(dn[:n + 1]), f(dn[:2]), f(dn[:2])), None)); continue
         elif op == "iter":
             ks = sorted(d, reverse=(w[1] == "1"))
             n = int(w[2])
             end = 1 if len(ks) <= n else 0
             ks = ks[:n + 1]
-            exp.append("w=" + ",".join("%d:%d" % (k, d[k]) for k in ks) + " end=%d" % end)
+            exp.append(("w=" + ",".join("%d:%d" % (k, d[k]) for k in ks) + " end=%d" % end, None)); continue
         else:
-            exp.append(None)
+            exp.append((None, None)); continue
         # size is part of the dictionary's answer for mutating ops
-        if op in ("insert", "upsert", "update", "ensert", "delete") and exp[-1] is not None:
-            exp[-1] += "n=%d " % len(d)
+        e += "n=%d " % len(d)
+        if style == 4:
+            ev = " ev=K%dV%dP%d" % (kf, vf, kp)
+        exp.append((e, ev))
     return exp
 
 
@@ -188,12 +270,19 @@ def judge_impl(block, cout):
         if "inv=BAD" in o:
             m = re.search(r"inv=(BAD:[a-z,]*)", o)
             return i, "red-black invariant broken in the real tree: %s" % (m.group(1) if m else "BAD")
-        e = exp[i]
+        e, ev = exp[i]
         if e is not None:
-            exact = l.split()[0] in ("search", "walk", "rwalk", "iter", "new")
+            exact = l.split()[0] in ("search", "walk", "rwalk", "iter", "zip", "new")
             if (o != e) if exact else (not o.startswith(e)):
                 return i, "result differs from the ideal dictionary: got %r expected %r" % (o[:80], e)
+        if ev is not None and not o.endswith(ev):
+            return i, "user style callbacks (key frees, value frees, keeper calls) %r, expected %r" % (o[o.rfind(" ev="):][:40], ev)
     return None
+
+
+def strip_ev(cout):
+    """the model has no user callbacks: drop the ` ev=` report of style 4 before the line-by-line comparison"""
+    return [o[:o.rfind(" ev=")] if " ev=K" in o else o for o in cout]
 
 
 # ----------------------------------------------------------------------------
@@ -216,7 +305,7 @@ def classify_block(block, out, dist):
         op = w[0]
         if op == "new":
             prev = {}; continue
-        if op not in ("insert", "upsert", "update", "ensert", "delete", "clear"):
+        if op not in ("insert", "upsert", "update", "ensert", "cbsert", "delete", "clear"):
             continue
         cur = parse_dump(o)
         if cur is None:
@@ -252,15 +341,18 @@ def classify_block(block, out, dist):
                 elif recol >= 1:
                     cat += ":recolour"
             dist[cat] = dist.get(cat, 0) + 1
-        elif op in ("insert", "upsert", "ensert") and len(cur) == len(prev) + 1:
+        elif op in ("insert", "upsert", "ensert", "cbsert") and len(cur) == len(prev) + 1:
             moved = sum(1 for kk in cur if kk in prev and prev[kk][1] != cur[kk][1])
             recol = sum(1 for kk in cur if kk in prev and prev[kk][0] != cur[kk][0])
             cat = "ins:" + ("rot" if moved else ("recolour" if recol else "plain"))
             if moved:
                 tags.add("insert-rotation")
             dist[cat] = dist.get(cat, 0) + 1
-        elif op in ("upsert", "update") and rc not in ("r=ENOENT", "r=EEXIST"):
-            dist["setval"] = dist.get("setval", 0) + 1
+        elif op in ("upsert", "update", "cbsert") and rc not in ("r=ENOENT", "r=EEXIST", "r=CBFAIL"):
+            key = "setval" if op != "cbsert" else "cbsert-existing:kind%s" % w[3]
+            dist[key] = dist.get(key, 0) + 1
+        elif op == "cbsert" and rc == "r=CBFAIL":
+            dist["cbsert-fail"] = dist.get("cbsert-fail", 0) + 1
         prev = cur
     return tags
 
@@ -276,7 +368,7 @@ def budget(nlines):
     return 120 + nlines // 200
 
 
-def run_impl(exe, lines, wd=20):
+def run_impl(exe, lines, wd=10):
     """the real code under ASan/UBSan with leak detection (every pair must be freed by delete/clear/close)"""
     rc, cout, cerr = C.run_harness(exe, [str(wd)], lines, timeout=budget(len(lines)), env=C.ASAN_LEAK_ENV)
     if rc != 0 and "LeakSanitizer" in cerr and ("fatal error" in cerr or "does not work" in cerr):
@@ -290,7 +382,7 @@ def run_impl(exe, lines, wd=20):
     return cout, status, cerr
 
 
-def run_both(ctx, exe, lines, wd=20):
+def run_both(ctx, exe, lines, wd=10):
     cout, status, cerr = run_impl(exe, lines, wd)
     mout = C.run_driver(ctx, AREA, lines, timeout=budget(len(lines)))
     return cout, mout, status, cerr
@@ -319,7 +411,7 @@ def verdict(ctx, exe, sub, wd=5):
     j = judge_impl(sub, cout)
     if st != "ok" and j is None:
         j = (max(0, len(cout) - 1), "sanitizer report / crash: " + st)
-    return j, C.diff_streams(cout, mout), cout, mout, st, cerr
+    return j, C.diff_streams(strip_ev(cout), mout), cout, mout, st, cerr
 
 
 def replay_text(small, cout, mout, cerr):
@@ -327,9 +419,29 @@ def replay_text(small, cout, mout, cerr):
             "\n# impl:\n" + "\n".join(cout) + "\n# model:\n" + "\n".join(mout) + "\n" + cerr[-1500:])
 
 
+SHRINK_SECONDS = 45     # a violating tree must not cost much more than this, hangs included (watchdog 3 s per run)
+
+
+def bounded(pred, seconds=SHRINK_SECONDS, max_hangs=6):
+    """a shrinking predicate that gives up (answers 'does not fail') once the time budget or the number of
+    watchdog expiries it may wait for is used up, so that ddmin stops reducing and the current candidate is kept"""
+    t_end = time.time() + seconds
+    hangs = [0]
+
+    def f(sub):
+        if time.time() > t_end or hangs[0] >= max_hangs:
+            return False
+        t0 = time.time()
+        r = pred(sub)
+        if time.time() - t0 > 2.5:
+            hangs[0] += 1
+        return r
+    return f
+
+
 def report_impl(ctx, exe, block):
     """(1) the property itself fails on the real code: shrink with the oracle only, confirm, report"""
-    small = norm_block(C.ddmin(block, lambda sub: impl_verdict(exe, sub) is not None, max_tests=250))
+    small = norm_block(C.ddmin(block, bounded(lambda sub: impl_verdict(exe, sub, wd=3) is not None), max_tests=250))
     j, d, cout, mout, st, cerr = verdict(ctx, exe, small)
     if j is None:                       # shrinking lost it: fall back to the unshrunk history
         small = norm_block(block)
@@ -347,7 +459,7 @@ def report_corr(ctx, exe, block):
     def fails(sub):
         j, d, *_ = verdict(ctx, exe, sub)
         return j is None and d is not None
-    small = norm_block(C.ddmin(block, fails, max_tests=250))
+    small = norm_block(C.ddmin(block, bounded(fails), max_tests=250))
     j, d, cout, mout, st, cerr = verdict(ctx, exe, small)
     if d is None:
         small = norm_block(block)
@@ -369,7 +481,9 @@ def stage(ctx, libdir):
     quick = ctx.tier == "quick"
     blocks = corpus_blocks()
     ncorpus = len(blocks)
+    blocks += vlen_matrix()
     blocks += exhaustive_allops(3, 3 if quick else 4)
+    blocks += exhaustive_cbsert(3, 3 if quick else 4)
     blocks += exhaustive_effective(5, 6 if quick else 8)
     nexh = len(blocks) - ncorpus
     nchurn = 120 if quick else 5000
@@ -404,18 +518,21 @@ def stage(ctx, libdir):
             mo = mout[upto:upto + len(b)]
             if first_impl is None and judge_impl(b, co) is not None:
                 first_impl = b
-            if first_corr is None and co != mo:
+            if first_corr is None and strip_ev(co) != mo:
                 first_corr = b
             if stat_left > 0:
                 stat_left -= len(b)
-                tags = classify_block(b, co, dist)
+                try:
+                    tags = classify_block(b, co, dist)
+                except Exception:
+                    tags = set()        # statistics only: a broken dump is the oracle's business, not theirs
                 if "fixup-from-sentinel" in tags and "insert-rotation" in tags:
                     nontriv.add(tuple(b))
             upto += len(b)
         for o in cout:
             if o.startswith("r="):
                 k = o.split(" ", 1)[0]
-                k = k if k in ("r=EEXIST", "r=ENOENT", "r=0", "r=ok") else "r=pair"
+                k = k if k in ("r=EEXIST", "r=ENOENT", "r=0", "r=ok", "r=CBFAIL") else "r=pair"
                 dist[k] = dist.get(k, 0) + 1
         if st != "ok" and first_impl is None:
             first_impl = bs[-1] if len(cout) >= len(ls) else next((b for b in bs), None)
@@ -461,17 +578,22 @@ def stage(ctx, libdir):
                 if report_corr(ctx, exe, fc):
                     break
     samples = [" ; ".join(b[:9]) for b in (blocks[ncorpus:ncorpus + 1] + blocks[ncorpus + nexh - 1:ncorpus + nexh] + blocks[-1:])]
-    rule = ("rbt: histories = corpus + every sequence over the 16-op alphabet {insert,upsert,update,ensert,delete}x3 keys+clear "
-            "(length %d) + every sequence of %d shape-changing insert/delete ops over 5 keys + seeded churn histories (<=2000 ops, 8..64 keys, "
-            "fill / mixed / delete-heavy tail, all four predefined styles); oracle on the real code: C-side red-black invariant flags "
-            "(black height, red-red, order, parent links, size, sentinel, height bound) + a Python dict for every return value / walk / iterator step; "
+    rule = ("rbt: histories = corpus + value-length matrix (5 styles x pair position x stored length x shorter/equal/longer/same new value x "
+            "upsert/update/cbsert) + every sequence over the 16-op alphabet {insert,upsert,update,ensert,delete}x3 keys+clear "
+            "(length %d) + every sequence over {insert,delete,cbsert with 5 callback kinds}x3 keys (same length) + every sequence of %d "
+            "shape-changing insert/delete ops over 5 keys + seeded churn histories (<=2000 ops, 8..64 keys, "
+            "fill / mixed / delete-heavy tail; the four predefined styles and a user style with key copier/freeer, value freeer, keeper, comparator; "
+            "keys are byte strings of 1..10 bytes, many of them prefixes of others); oracle on the real code: C-side red-black invariant flags "
+            "(black height, red-red, order, parent links, size, sentinel, height bound) + a Python dict for every return value / stored value bytes and length / walk / "
+            "iterator step / user-callback count; "
             "correspondence: after every mutating call the full preorder dump (colour,key,value,parent key), size and height equals the Lean model's; "
             "distinct_nontrivial = distinct histories (among the ~600k analysed lines, taken from the head of every batch) whose dumps show both an insert that rotated and a delete "
             "of a black pair whose replacing child is the sentinel (the repaired fix-up path)" % ((3 if quick else 4), (6 if quick else 8)))
     return dict(proofs=[proof], evaluations=nlines, distinct_nontrivial=len(nontriv), samples=samples, dist=dist, rule=rule,
                 impl_status=status, histories=len(blocks),
-                trusted=["rbt.c modelled by hand in HawkModel/Rbt.lean (pair identity / re-allocation by change_pair_val, custom copiers, "
-                         "hawk_rbt_cbsert, iterator protection not modelled); comparator abstracted to < on Nat",
+                trusted=["rbt.c modelled by hand in HawkModel/Rbt.lean (pair identity / re-allocation by change_pair_val or a cbsert callback, "
+                         "user copier/freeer/keeper calls, iterator protection not modelled; cbsert callbacks abstracted to Option V -> Option V); "
+                         "comparator abstracted to < on Nat",
                          "patches/rbt-delete-fixup.diff: the model follows the repaired delete_pair"],
                 assumptions=["no allocation failure inside hawk_rbt_* (not injected by the rbt harness)",
                              "the tree is not mutated while an iterator is live (iterator protection is compiled out)"])
